@@ -189,11 +189,11 @@ CHECKS = {
         "design_ref": "DESIGN.md section 5/C06",
         "engine": "sequential driver + E1 clock + paused tokio runtime",
         "technique": "deterministic simulation: seeded histories of writes/deletes/overwrites/drains followed by searches through every entry point (timed variant on a paused runtime with zero/large timeouts and 0/1/large permits), every response judged against brute-force f64 distances on a reference model",
-        "rule": "seeded histories (4-34 steps quick, 4-70 thorough; a quarter start with a 90% tombstone prefix) over TieredEngine x metric x dimension {1,3,4,7,8,9,15,16,17,31,32,33,40,64} x strategies x query-cache capacity x hot limits x "
+        "rule": "seeded histories (4-34 steps quick, 4-70 thorough; a quarter start with a 90% tombstone prefix, a sixth of the others with a crowded neighbourhood: 3-14 superseded versions of one document next to a pooled query, a freshly acknowledged nearest live document that is re-written 2/3 of the time with the same vector, then a k=1/2 search; a sixth of later writes to a known id re-use its vector) over TieredEngine x metric x dimension {1,3,4,7,8,9,15,16,17,31,32,33,40,48,64,80,100,112} x strategies x query-cache capacity x hot limits x "
                 "timeouts {0,50,10000}/{0,1000,10000} ms x permits {0,1,1000}; searches via knn_search_with_ef_detailed_scoped (with/without ef), the batch variant, the cold backend (single/batch) and "
                 "knn_search_with_timeouts_with_ef_scoped; k in {1,2,3,4,5,10,100,1000}; vectors exactly normalised, far from normalised and inside the [0.98,1.02] band; queries repeated to hit the result cache. "
                 "Every response: <= k results, distinct ids, all in the model now, non-decreasing distance, reported distance inside the interval spanned by the cold-tier and hot-tier formulas on the stored vector "
-                "(+- 3e-5 + 3e-4 |d|; cache hits are judged against the query of the entry that was served); every acknowledged write still in the recent-write tier that is strictly closer than the k-th result is present "
+                "(+- 3e-5 + 3e-4 |d|; cache hits are judged against the query of the entry that was served); every acknowledged write resident in the recent-write tier before the search that is strictly closer than the k-th result is present "
                 "(not judged for degraded/timed/cache-hit responses). evaluations = responses judged. distinct_nontrivial = distinct hashes of the (result count, execution path) sequence of runs with >1 search.",
         "assumptions": ["the timed search path never times out here: expiry of the hot/cold tier timeouts would race with tokio's blocking pool, which the simulator does not schedule, so the degraded / partial-result branch is not explored", "a timeout firing in the middle of a tier search is not scheduled deterministically (zero timeouts and pre-set conditions only)", "recall of the approximate index is not judged (C16 is not applicable)"],
         "expected_probes": ["path_cache_hit", "path_hot_and_cold", "path_hot_only", "path_cold_only", "load_shed", "drain_between_searches"],
@@ -292,7 +292,7 @@ CHECKS = {
         "engine": "E3 in-process server (real handlers, validators, generated router/codec, panic containment layer)",
         "technique": "deterministic simulation: seeded scripts of structurally generated boundary / pathological requests against the real server run in-process; after every call the delivered status, the canonical collection (ground truth) and continued service are judged, then the server is restarted and the collection compared again",
         "rule": "server with auth on and two tenants, the acting one sorting second so that its tenant index is 1 and global ids differ from local ids; script = 3 baseline documents (one sentinel) + 4-18 calls (6-40 thorough); each call picks an RPC (Insert, BulkInsert, BulkLoadHnsw, Delete, UpdateMetadata, Query, BulkQuery, Search, BulkSearch, BatchDelete ids/filter/none, FlushHotTier, raw undecodable frames on every method, unknown methods) "
-                "and with probability 2/3 poisons fields: ids {0, u32::MAX, u32::MAX+1, u64::MAX}; vectors {empty, 4097 lanes, 4096 lanes, dim-1, dim+1, NaN, +inf, -inf, all 0.0, all -0.0, all f32::MAX, smallest denormal, +-3e38, 1 lane}; k {0, 999, 1000, 1001, u32::MAX}; ef {1, 10000, 10001, u32::MAX}; "
+                "and with probability 2/3 poisons fields: ids {0, u32::MAX, u32::MAX+1, u64::MAX}; vectors {empty, 4097 lanes, 4096 lanes, dim-1, dim+1, NaN, +inf, -inf, all 0.0, all -0.0, all f32::MAX, smallest denormal, +-3e38, 1 lane}; k {0, 999, 1000, 1001, u32::MAX, 256, 65536, 65537, 66536, 131072, 2^20, 2^20+3}; ef {1, 10000, 10001, u32::MAX, 65536, 65546, 75536, 2^20+64} (values whose low 8/16/20 bits alone are in range); ids also 2^32+n, 2^48+n; "
                 "min_score {NaN, +-inf, 2, -1, denormal}; filters {unset oneof, range without bound, NOT without operand, empty AND/OR/IN, 300-way AND, 2000-value IN, nesting 20..5000 levels of NOT/AND/OR, non-numeric range bounds}; metadata {70 kB value, empty key, 200 keys, reserved key}; "
                 "streams of 0-6 items mixing valid and poisoned ones, streams and id lists of 10001-10003 entries. Each item / request is classified valid, invalid or borderline (zero, overflowing-norm, denormal vectors, deep-but-decodable filters: may be refused or accepted). "
                 "Judged per call: (1) a gRPC status reached the client and any response frame decodes; (2) invalid requests are refused (non-OK status or success=false with nothing accepted); (3) the canonical collection (ids, stored vectors, full metadata) changed exactly as the valid items allow: "
@@ -309,9 +309,9 @@ CHECKS = {
         "level": "exploration",
         "design_ref": "DESIGN.md section 5/C12",
         "engine": "E1 simlibc (clock, file mtimes, randomness) over real files",
-        "technique": "deterministic simulation: seeded engine histories with backups at quiescent points on a simulated clock and simulated file mtimes; every backup and point-in-time target restored into an empty directory and the real engine started from it; seeded single-byte damage / truncation of archives and metadata; retention over synthetic timelines at a simulated now",
+        "technique": "deterministic simulation: seeded engine histories with backups at quiescent points on a simulated clock and simulated file mtimes, process crashes rebuilt from the storage journal and failing storage calls between backups; every backup and point-in-time target restored into an empty directory and the real engine started from it; seeded single-byte damage / truncation of archives and metadata; retention over synthetic timelines at a simulated now",
         "rule": "4 of 5 runs: history of 5-30 steps (8-60 thorough) over 3-8 ids: insert / delete / batch delete / metadata update, explicit snapshots, automatic snapshots (interval 2/3/5), WAL rotation limits 1 B / 300 B / 2 KiB / unbounded (compaction after snapshots), restarts, clock gaps {0,1,2,5,3600} s, "
-                "full backups and incremental backups on the latest backup / latest full / an arbitrary earlier backup; backend and tiered engines, fsync always. Expected collection of a backup = live census when it was taken. Judged: (1) every backup (first 8) restored into an empty directory, engine started (strict recovery), census == expected; "
+                "full backups and incremental backups on the latest backup / latest full / an arbitrary earlier backup; crash steps (the data directory is journaled: the directory is rebuilt as of 0-24 storage effects before the end, never before the latest backup, kill or torn inside the write it dies in, file times as of the last effect per file; half of the time a full backup of the directory as the crash left it, expected collection = what the following start gives); operations (insert / delete / snapshot) under failing storage calls as in C03 (only the backups taken afterwards are judged; in a history with a fired fault a backup may equal the live census or what a start from a copy of the source gives); backend and tiered engines, fsync always. Expected collection of a backup = live census when it was taken. Judged: (1) every backup (first 8) restored into an empty directory, engine started (strict recovery), census == expected; "
                 "(2) point-in-time targets at every backup timestamp and +-1 s: census equals an eligible backup (rooted in a newest full backup <= target, chain <= target, not superseded by a strictly newer eligible child), refusal only when no full backup is old enough; "
                 "(3) a refused incremental ('No new WAL files') only when the live census still equals the parent's; (4) non-empty target without confirmation: refused and byte-identical; dry run: byte-identical; "
                 "(5) 24 (60 thorough) damages of a chain's archive or metadata file (1/6 truncations at 0 / len-1 / len/2 / random, else one bit flipped at a structural offset (first 48 bytes) or a random offset), restore with confirmation into a populated target: refused with the target byte-identical, or accepted with census == expected. "
@@ -319,7 +319,7 @@ CHECKS = {
                 "evaluations = restores + prunes judged. distinct_nontrivial = distinct (backup kinds, collection sizes) digests.",
         "assumptions": ["backups are taken while the engine is idle but open (fsync always), as the kyrodb_backup binary does against a running server's directory", "S3 upload/download and the CLI argument parsing are not exercised",
                         "file mtimes are stamped from the simulated clock by the libc seam on every open-for-write / write / truncate below the data directory"],
-        "expected_probes": ["full_backups", "incremental_backups", "incremental_after_snapshot_and_compaction", "incremental_after_restart", "incremental_refused_no_new_wal", "pitr_restores_judged", "pitr_before_first_backup_refused", "guard_refused_non_empty_target", "damaged_backup_rejected", "damage_harmless_restore_equal", "retention_pruned_something"],
+        "expected_probes": ["crash_inside_a_procedure", "full_backups_of_crashed_directory", "operation_succeeded_despite_storage_fault", "operation_failed_under_storage_fault", "full_backups", "incremental_backups", "incremental_after_snapshot_and_compaction", "incremental_after_restart", "incremental_refused_no_new_wal", "pitr_restores_judged", "pitr_before_first_backup_refused", "guard_refused_non_empty_target", "damaged_backup_rejected", "damage_harmless_restore_equal", "retention_pruned_something"],
         "tiers": {"quick": {"runs_per_worker": 1000000, "budget_s": 30}, "thorough": {"runs_per_worker": 10000000, "budget_s": 900}},
         "level_text": "Seeded exploration of histories x backup points x restore targets with the real engine started on every restored directory, plus sampled single-byte damage and synthetic retention timelines.",
         "level_note": "trusted base: live census as the expected collection (C02 shows restart == live), libc seam for clock and mtimes, byte-wise directory comparison",
